@@ -3,6 +3,7 @@ C09 — try_sync never blocks, never half-runs and never disturbs the queue.
 -/
 import DesyncModel.Spec
 import DesyncModel.Tables
+import DesyncModel.FactTrySync
 import DesyncModel.Lemmas
 
 namespace Desync.C09
